@@ -56,3 +56,24 @@ Corollary hashlookupjoin_loop_count (lkind rvind : list Z) (missing : val) (rl :
 Proof.
   intros H. apply hashlookupjoin_loop_exact in H. induction H; cbn; congruence.
 Qed.
+
+(* hashrightjoin's probe loop: the output is the concatenation, in right order, of one block per right row: that row joined to ALL
+   the left rows the lookup holds for its key, in left-table order (C07_lookup_groups_in_table_order), or the single padded
+   right-only row when the key is absent *)
+Theorem hashrightjoin_loop_exact (lhdr_len : nat) (lkind rkind rvind : list Z) (missing : val) (ll : pdict (list val))
+    (R out : list row) :
+  hashrightjoin_loop lhdr_len lkind rkind rvind missing ll R = (out, None) ->
+  exists blocks, out = concat blocks /\
+    Forall2 (fun rrow block => exists k, raw_getkey rkind rrow = Some k /\
+               block = match pd_get ll k with
+                       | Some lrows => map (fun lrow => lrow ++ rgetv rvind missing rrow) (rows_of_vals lrows)
+                       | None => join_right_only lhdr_len lkind rkind rvind missing [rrow]
+                       end) R blocks.
+Proof.
+  revert out; induction R as [|rrow t IH]; intros out; cbn [hashrightjoin_loop].
+  - intros H; inversion H. exists []. split; [reflexivity|constructor].
+  - destruct (raw_getkey rkind rrow) as [k|] eqn:Ek; [|discriminate].
+    destruct (hashrightjoin_loop lhdr_len lkind rkind rvind missing ll t) as [o e] eqn:Et. intros H; inversion H; subst; clear H.
+    destruct (IH o eq_refl) as [blocks [-> Hf]].
+    eexists (_ :: blocks). split; [reflexivity|]. constructor; [|exact Hf]. exists k. split; [exact Ek|reflexivity].
+Qed.
